@@ -83,6 +83,13 @@ func (p *prop) Generate(rng *core.Rand, tier string, emit func(string)) {
 	for i := 0; i < nSite/6; i++ {
 		emit(genFauthCase(rgl))
 	}
+	// ---- import expansion under the cycle check (importGraph + the splice of doImport) through caddyfile.Parse vs model
+	for _, c := range impFixed {
+		emit(c)
+	}
+	for i := 0; i < nSite/2; i++ {
+		emit(genImpCase(rgl))
+	}
 	// ---- the JSON encoder of the status codes (model-carried)
 	for i := 0; i < nSite*3/2; i++ {
 		emit(genWsCase(rgl))
@@ -207,6 +214,21 @@ var regressionTexts = []string{
 	"import ../inc/s*\n",
 	"(a) {\n\t{block}\n}\n:80 {\n\timport a {\n\t\timport a {\n\t\t\trespond x\n\t\t}\n\t}\n}\n",
 	":80 {\n\timport *\n\timport nosuchfile\n}\n",
+}
+
+// impFixed: the shapes the termination argument talks about — a self-import is expanded ONCE before the check sees the
+// loop it made, a two-cycle through a snippet and a file, a diamond (no cycle: both paths expand), a chain that returns to
+// its first node, an empty snippet (adds no node), a missing file.
+var impFixed = []string{
+	"imp b=m1,i1,m2;s=m3,i1",
+	"imp b=i1;f=m1,i1,m2",
+	"imp b=i1;s=m1,i2;f=m2,i1",
+	"imp b=i1,i2;f=m1,i3;f=m2,i3;s=m3",
+	"imp b=i1;f=i2;f=i3;s=i1",
+	"imp b=i1,i1,m1;s=-",
+	"imp b=m1,i4;s=m2",
+	"imp b=i1,i1;f=i2,i2;s=i3,i3;f=m1",
+	"imp b=i1;s=i2;s=i2,m1",
 }
 
 func genSortCase(r *core.Rand, order []string) string {
